@@ -15,9 +15,11 @@
  *   PQ_HO      heap order: rank(a[parent(i)]) <= rank(a[i]) for every 1 <= i < length
  * "for every i" is an explicit conjunction over the N slots (no quantifier reaches the SAT back end, no spec loops).
  *
- * Comparator (DESIGN §4.6): pq_rank_cmp orders elements by g_rank[first byte of the element]; g_rank[] is an arbitrary
- * (nondeterministic) table, i.e. the comparator ranges over EVERY total preorder of the 256 key classes: ascending,
- * descending, everything-equal, many duplicates.  The remaining ISZ-1 bytes are payload the comparator does not look at.
+ * Comparator (DESIGN §4.6): pq_rank_cmp orders elements by a rank of the first byte of the element (the key):
+ * rank(k) = (g_desc ? ~k : k) >> g_shift with nondeterministic g_desc, g_shift, i.e. ascending or descending order of
+ * the key, with distinct keys comparing equal in blocks of 1, 2, 4 .. 128 (g_shift = 7: only two ranks, almost everything
+ * ties).  The remaining ISZ-1 bytes are payload the comparator does not look at.  (An arbitrary 256-entry rank table -
+ * every total preorder of the keys - was tried: heap-order obligations then do not finish.)
  *
  * Abstract view and ghost witnesses (DESIGN §4.3/§4.4), switched on by g_on, pinned to the pre-state in `requires`:
  *   g_pj                     arbitrary byte position inside an element
@@ -67,7 +69,8 @@
 #endif
 
 /* ---- ghost state ---- */
-uint8_t g_rank[256];                           /* arbitrary rank of every key byte: the comparator's total preorder */
+bool g_desc;                                   /* comparator: descending instead of ascending order of the key byte */
+uint8_t g_shift;                               /* comparator: keys that agree in their upper 8-g_shift bits compare equal */
 struct aws_priority_queue_node g_nodes[PQK];   /* handle pool (arena, DESIGN §4.5) */
 struct aws_allocator g_pq_alloc;               /* the allocator of dynamic queues (only its address matters) */
 size_t g_pj;
@@ -79,8 +82,9 @@ bool g_h_inq;
 uint8_t g_h_key, g_h_b;
 bool g_moved;           /* sift: whether the element has to move */
 
+#define PQ_RANKOF(k) ((uint8_t)((uint8_t)(g_desc ? ~(k) : (k)) >> (g_shift & 7)))
 int pq_rank_cmp(const void *a, const void *b) {
-    int ra = g_rank[*(const uint8_t *)a], rb = g_rank[*(const uint8_t *)b];
+    int ra = PQ_RANKOF(*(const uint8_t *)a), rb = PQ_RANKOF(*(const uint8_t *)b);
     return ra - rb;
 }
 
@@ -90,7 +94,7 @@ int pq_rank_cmp(const void *a, const void *b) {
 #define PQ_DATA(q) ((uint8_t *)(q)->container.data)
 #define PQ_B(q, i, j) (PQ_DATA(q)[(i) * ISZ + (j)])
 #define PQ_KEY(q, i) PQ_B(q, i, 0)
-#define PQ_RANK(q, i) (g_rank[PQ_KEY(q, i)])
+#define PQ_RANK(q, i) PQ_RANKOF(PQ_KEY(q, i))
 #define PQ_BPA(q) ((struct aws_priority_queue_node **)(q)->backpointers.data)
 #define PQ_DYN(q) ((q)->container.alloc != NULL)
 #define PQ_BP_LIVE(q) ((q)->backpointers.data != NULL)
@@ -302,7 +306,7 @@ __CPROVER_ensures((RET == AWS_OP_SUCCESS) == (OLD(PQ_LEN(queue)) > 0))
 __CPROVER_ensures(RET != AWS_OP_SUCCESS ==> g_last_error == AWS_ERROR_PRIORITY_QUEUE_EMPTY)
 __CPROVER_ensures(RET == AWS_OP_SUCCESS ==> AL_NO_ERR_RAISED)
 PQ_ENS_REMOVE(queue, OLD(PQ_LEN(queue)) > 0, 0)
-__CPROVER_ensures(g_on && RET == AWS_OP_SUCCESS && g_ki < OLD(PQ_LEN(queue)) ==> g_rank[((uint8_t *)item)[0]] <= g_rank[g_ki_key])
+__CPROVER_ensures(g_on && RET == AWS_OP_SUCCESS && g_ki < OLD(PQ_LEN(queue)) ==> PQ_RANKOF(((uint8_t *)item)[0]) <= PQ_RANKOF(g_ki_key))
 ;
 
 /* remove by handle.  The handle is a pool handle that is in the queue, or one whose index field is not a slot of the
@@ -335,7 +339,7 @@ __CPROVER_ensures(RET == AWS_OP_SUCCESS || RET == AWS_OP_ERR)
 __CPROVER_ensures((RET == AWS_OP_SUCCESS) == (PQ_LEN(queue) > 0))
 __CPROVER_ensures(RET != AWS_OP_SUCCESS ==> g_last_error == AWS_ERROR_PRIORITY_QUEUE_EMPTY)
 __CPROVER_ensures(RET == AWS_OP_SUCCESS ==> AL_NO_ERR_RAISED && *item == queue->container.data)
-__CPROVER_ensures(g_on && RET == AWS_OP_SUCCESS && g_ki < PQ_LEN(queue) ==> g_rank[*(uint8_t *)*item] <= g_rank[g_ki_key])
+__CPROVER_ensures(g_on && RET == AWS_OP_SUCCESS && g_ki < PQ_LEN(queue) ==> PQ_RANKOF(*(uint8_t *)*item) <= PQ_RANKOF(g_ki_key))
 ;
 
 /* ------------------------------------------------------------------ push */
